@@ -14,12 +14,13 @@ priority order, ``cp=[k]`` is "preempt the first thread at its k-th yield point,
 resume", etc.  A run is therefore a pure function of (bodies, schedule) -- as long as the liveness fallback below
 stays unused (``Result.fallbacks == 0``), which callers must check.
 
-Liveness fallback (the only use of the wall clock): if the token holder neither reaches a yield point nor
-finishes within ``grace`` seconds it is treated as *blocked* (e.g. waiting for a real lock that a parked thread
-holds) and the next parked thread is released in addition, so the harness itself can never create a deadlock.
-Functions listed in ``no_yield`` (bodies of real locks) contain no yield points.  If every unfinished thread is
-blocked for a further grace period the run ends with ``status == "hang"``; the blocked daemon threads are leaked
-(Python cannot kill them) and the caller decides what that means.  ``max_steps`` bounds the number of yield
+Liveness fallback (the only use of clocks): if the token holder neither reaches a yield point, nor finishes, nor
+consumes CPU time (per-thread CPU clock) for ``block_detect`` seconds it is treated as *blocked* (e.g. waiting for
+a real lock that a parked thread holds) and the next parked thread is released in addition, so the harness itself
+can never create a deadlock; the blocked thread parks again at its next yield point.  Functions listed in
+``no_yield`` (bodies of real locks) contain no yield points.  If every unfinished thread has been released and
+nothing moves for the long ``grace`` period the run ends with ``status == "hang"``; the blocked daemon threads are
+leaked (Python cannot kill them) and the caller decides what that means.  ``max_steps`` bounds the number of yield
 points (``status == "overrun"``: all workers are unwound with ``Abort``).
 """
 from __future__ import annotations
@@ -36,7 +37,7 @@ class Abort(BaseException):
 
 
 class _TS:
-    __slots__ = ("idx", "gate", "parked", "blocked", "done", "steps", "thread", "error", "frame", "ident")
+    __slots__ = ("idx", "gate", "parked", "blocked", "done", "steps", "thread", "error", "frame", "ident", "clk")
 
     def __init__(self, idx: int):
         self.idx = idx
@@ -50,6 +51,7 @@ class _TS:
         self.error: Optional[BaseException] = None
         self.frame = None  # frame of the yield point where the thread is parked
         self.ident = None
+        self.clk = None
 
 
 class Switch:
@@ -81,8 +83,8 @@ class Result:
 class Scheduler:
     def __init__(self, bodies: Sequence[Callable[["Scheduler", int], None]], schedule: dict, *,
                  traced_files: frozenset, no_yield: frozenset = frozenset(),
-                 grace: float = 2.0, max_steps: int = 200_000, record: bool = False,
-                 on_switch: Optional[Callable] = None):
+                 grace: float = 2.0, block_detect: float = 0.05, max_steps: int = 200_000, record: bool = False,
+                 on_switch: Optional[Callable] = None, engine: str = "settrace"):
         n = len(bodies)
         prio = list(schedule.get("prio") or range(n))
         if sorted(prio) != list(range(n)):
@@ -94,6 +96,11 @@ class Scheduler:
         self._traced_files = traced_files
         self._no_yield = no_yield
         self._grace = grace
+        self._has_cpu_clock = hasattr(time, "pthread_getcpuclockid")
+        # without per-thread CPU clocks "blocked" can only be told from "busy in untraced code" by waiting long
+        self._block_detect = block_detect if self._has_cpu_clock else grace
+        self._tick = min(0.005, self._block_detect / 4) if self._has_cpu_clock else min(0.25, grace / 4)
+        self._cpu_eps = 0.0003
         self._max_steps = max_steps
         self._codeflags: dict = {}
         self._mu = threading.Lock()
@@ -106,6 +113,9 @@ class Scheduler:
         self._abort = False
         self._on_switch = on_switch
         self._by_ident: dict = {}
+        if engine not in ("settrace", "monitoring"):
+            raise ValueError(engine)
+        self._engine = engine
         self.result = Result()
         if record:
             self.result.log = []
@@ -200,6 +210,19 @@ class Scheduler:
             return
         self._yield(ts, sys._getframe(1), label)
 
+    def _cpu_sum(self) -> float:
+        """CPU seconds consumed so far by the unfinished worker threads (0.0 if the platform cannot tell)."""
+        if not self._has_cpu_clock:
+            return 0.0
+        total = 0.0
+        for t in self._ts:
+            if not t.done and t.clk is not None:
+                try:
+                    total += time.clock_gettime(t.clk)
+                except OSError:
+                    pass
+        return total
+
     def _finish(self, ts: _TS):
         with self._mu:
             ts.done = True
@@ -218,9 +241,25 @@ class Scheduler:
     def _worker(self, ts: _TS):
         self._by_ident[_thread.get_ident()] = ts
         ts.ident = _thread.get_ident()
+        if self._has_cpu_clock:
+            ts.clk = time.pthread_getcpuclockid(ts.ident)
         ts.parked = True
         self._started.release()
         ts.gate.acquire()
+        try:
+            if not self._abort:
+                if self._engine == "monitoring":
+                    self._bodies[ts.idx](self, ts.idx)
+                else:
+                    self._run_with_settrace(ts)
+        except Abort:
+            pass
+        except BaseException as e:  # noqa: BLE001 -- a body must handle the exceptions of the code under test
+            ts.error = e
+        finally:
+            self._finish(ts)
+
+    def _run_with_settrace(self, ts: _TS):
         codeflags = self._codeflags
         classify = self._classify
         do_yield = self._yield
@@ -237,22 +276,23 @@ class Scheduler:
                 flag = codeflags[code] = classify(code)
             return local if flag else None
 
+        sys.settrace(tracer)
         try:
-            if not self._abort:
-                sys.settrace(tracer)
-                try:
-                    self._bodies[ts.idx](self, ts.idx)
-                finally:
-                    sys.settrace(None)
-        except Abort:
-            pass
-        except BaseException as e:  # noqa: BLE001 -- a body must handle the exceptions of the code under test
-            ts.error = e
+            self._bodies[ts.idx](self, ts.idx)
         finally:
-            self._finish(ts)
+            sys.settrace(None)
 
     # ------------------------------------------------------------------ driver (main thread)
     def run(self) -> Result:
+        if self._engine == "monitoring":
+            _Monitor.activate(self)
+            try:
+                return self._run()
+            finally:
+                _Monitor.deactivate(self)
+        return self._run()
+
+    def _run(self) -> Result:
         res = self.result
         for ts in self._ts:
             ts.thread = threading.Thread(target=self._worker, args=(ts,), daemon=True, name=f"c12-worker-{ts.idx}")
@@ -265,36 +305,51 @@ class Scheduler:
             first.parked = False
             first.gate.release()
 
-        tick = min(0.25, self._grace / 4)
-        last_progress = -1
-        last_g = -1
-        stalled_since = None
+        # Watchdog.  "Moved" = a yield point / switch / finish happened, or the unfinished workers consumed CPU
+        # time (a long stretch of untraced code).  A token holder that neither moves nor burns CPU for
+        # ``block_detect`` seconds is blocked (waiting for a real lock, sleeping, ...): release the next parked
+        # thread.  Only when *no* unfinished thread can be released any more and nothing moved for the long
+        # ``grace`` period is the run declared hung.
+        tick = self._tick
+        last = None
+        idle_since = time.monotonic()
         while not self._all_done.wait(tick):
-            snapshot = (self._progress, self._g)
-            if snapshot != (last_progress, last_g):
-                last_progress, last_g = snapshot
-                stalled_since = time.monotonic()
+            now = time.monotonic()
+            snap = (self._progress, self._g, self._cpu_sum())
+            if last is None or snap[:2] != last[:2] or snap[2] - last[2] > self._cpu_eps:
+                last = snap
+                idle_since = now
                 continue
-            if time.monotonic() - stalled_since < self._grace:
-                continue
-            # nobody moved for a grace period
+            last = snap
+            idle = now - idle_since
             with self._mu:
-                if (self._progress, self._g) != snapshot:
+                if (self._progress, self._g) != snap[:2]:
                     continue
                 holder = self._cur
                 if holder is not None and not holder.done:
+                    if idle < self._block_detect:
+                        continue
                     holder.blocked = True
+                    nxt = self._pick()
+                    self._cur = nxt
+                    if nxt is not None:
+                        res.fallbacks += 1
+                        nxt.parked = False
+                        self._progress += 1
+                        nxt.gate.release()
+                        last = None
+                    continue
                 nxt = self._pick()
-                if nxt is not None:
-                    res.fallbacks += 1
+                if nxt is not None:  # a thread that had been declared blocked woke up and parked itself
                     self._cur = nxt
                     nxt.parked = False
                     self._progress += 1
                     nxt.gate.release()
-                    stalled_since = time.monotonic()
-                    last_progress = self._progress
+                    last = None
                     continue
-                # no parked thread is left: every unfinished thread has been released and none moves
+                if idle < self._grace:
+                    continue
+                # every unfinished thread has been released, none moved or used CPU for a whole grace period
                 res.status = "hang"
                 frames = sys._current_frames()
                 for t in self._ts:
@@ -313,3 +368,85 @@ class Scheduler:
         res.per_thread_steps = [t.steps for t in self._ts]
         res.errors = [(t.idx, t.error) for t in self._ts if t.error is not None]
         return res
+
+
+class _Monitor:
+    """``sys.monitoring`` engine (CPython >= 3.12): LINE events are enabled *locally* on the code objects of the
+    traced files only, so untraced code runs at full speed.  One scheduler at a time per process."""
+
+    TOOL = 4
+    installed_for = None     # (traced_files, no_yield) the instrumentation was installed for
+    active: Optional[Scheduler] = None
+    late = 0                 # code objects discovered lazily through PY_START (should stay 0 after installation)
+    seen: set = set()
+
+    @classmethod
+    def _wanted(cls, code) -> bool:
+        files, no_yield = cls.installed_for
+        return code.co_filename in files and code.co_name not in no_yield
+
+    @classmethod
+    def _instrument(cls, code, seen):
+        if code in seen:
+            return
+        seen.add(code)
+        mon = sys.monitoring
+        if cls._wanted(code):
+            mon.set_local_events(cls.TOOL, code, mon.events.LINE)
+        for const in code.co_consts:
+            if isinstance(const, type(code)):
+                cls._instrument(const, seen)
+
+    @classmethod
+    def install(cls, traced_files, no_yield):
+        import gc  # noqa: PLC0415
+        import types  # noqa: PLC0415
+        mon = sys.monitoring
+        key = (traced_files, no_yield)
+        if cls.installed_for == key:
+            return
+        if cls.installed_for is not None:
+            raise RuntimeError("vkit.sched monitoring engine supports one traced-file set per process")
+        mon.use_tool_id(cls.TOOL, "vkit.sched")
+        cls.installed_for = key
+        for obj in gc.get_objects():
+            if isinstance(obj, types.FunctionType) and obj.__code__.co_filename in traced_files:
+                cls._instrument(obj.__code__, cls.seen)
+        mon.register_callback(cls.TOOL, mon.events.LINE, cls._on_line)
+        mon.register_callback(cls.TOOL, mon.events.PY_START, cls._on_start)
+        mon.set_events(cls.TOOL, mon.events.PY_START)
+
+    @classmethod
+    def _on_start(cls, code, offset):
+        if code not in cls.seen and cls._wanted(code):
+            cls.late += 1
+            cls._instrument(code, cls.seen)
+        return sys.monitoring.DISABLE
+
+    @classmethod
+    def _on_line(cls, code, line):
+        sch = cls.active
+        if sch is None:
+            return None
+        ts = sch._by_ident.get(_thread.get_ident())
+        if ts is None or ts.done:
+            return None
+        if sch._cur is ts and not sch._abort and sch.result.log is None:
+            g = sch._g   # fast path: not a change point, nothing to record
+            if g not in sch._cps and g < sch._max_steps:
+                sch._g = g + 1
+                ts.steps += 1
+                return None
+        sch._yield(ts, sys._getframe(1))
+        return None
+
+    @classmethod
+    def activate(cls, sch: Scheduler):
+        cls.install(sch._traced_files, sch._no_yield)
+        if cls.active is not None:
+            raise RuntimeError("another Scheduler is running in this process")
+        cls.active = sch
+
+    @classmethod
+    def deactivate(cls, sch: Scheduler):
+        cls.active = None
